@@ -141,6 +141,9 @@ pub struct ServerStreamProg {
     pub refuse: Option<u32>,
     /// drop SendResponse without responding
     pub drop_without_response: bool,
+    /// after the final response: try send_informational / push_request again (must fail)
+    pub late_informational: bool,
+    pub late_push: bool,
 }
 
 #[derive(Debug, Clone, Copy)]
@@ -310,6 +313,8 @@ pub fn gen_server_prog(t: &Tape, ws: &WorkSpace, peer_iws: u32, peer_mfs: u32) -
         respond_delay: *t.pick(Lane::Work, &[0u32, 1, 3, 10, 50]),
         refuse,
         drop_without_response: ws.aborts && t.chance(Lane::Work, 1, 16),
+        late_informational: ws.informational && t.chance(Lane::Work, 1, 4),
+        late_push: ws.pushes && t.chance(Lane::Work, 1, 4),
     }
 }
 
@@ -1030,6 +1035,20 @@ pub async fn server_stream(ctx: Ctx, name: String, req: http::Request<h2::RecvSt
             if !eos {
                 let n = format!("s:s{}:send", sid);
                 ctx.spawner.spawn(n.clone(), send_body(ctx.clone(), n, 1, ss, prog.body.clone(), 1, sid, cancel.clone()));
+            }
+            // operations that are only legal before the final response must now be refused
+            if prog.late_informational {
+                let r = http::Response::builder().status(103).body(()).unwrap();
+                let res = respond.send_informational(r);
+                ctx.hist.probe("late_send_informational_attempted");
+                ctx.hist.log(1, sid, || format!("late send_informational -> {:?}", res.as_ref().map_err(|e| e.to_string())));
+            }
+            if prog.late_push && eos {
+                let preq = build_request("GET", "/late-push", &vec![], 0);
+                let res = respond.push_request(preq);
+                ctx.hist.probe("late_push_request_attempted");
+                ctx.hist.log(1, sid, || format!("late push_request -> {:?}", res.as_ref().map(|_| ()).map_err(|e| e.to_string())));
+                // (if it is wrongly accepted the handle is dropped: the pushed stream is cancelled)
             }
         }
         Err(e) => {
